@@ -512,12 +512,30 @@ def file_local_context(src, path, cut_ranges, cut_texts, already, kinds=None):
                 names = [x for x in names if re.fullmatch(r"\w+", x)]
                 tag = re.match(r"enum\s+(\w+)", flat)
                 kind = "enum"
-            elif re.match(r"static\s+const\b", flat) and "(" not in flat.split("=")[0]:
-                head = flat.split("=")[0]
-                mm = re.search(r"(\w+)\s*(?:\[[^\]]*\]\s*)*$", head.strip())
-                if mm:
+            elif re.match(r"static\b", flat) and "(" not in re.split(r"[={]", flat, 1)[0]:
+                # a file-scope object: `static const T x[] = {...};`, `static struct {...} stats;`, `static int counter;`
+                head = flat
+                if "{" in re.split(r"=", flat, 1)[0]:
+                    # anonymous / tagged aggregate type written out: the declarator follows the closing brace
+                    depth_, end_ = 0, None
+                    for q, chq in enumerate(flat):
+                        if chq == "{":
+                            depth_ += 1
+                        elif chq == "}":
+                            depth_ -= 1
+                            if depth_ == 0:
+                                end_ = q
+                                break
+                    head = flat[end_ + 1:] if end_ is not None else flat
+                head = re.sub(r"__attribute__\s*\(\(.*?\)\)", " ", head.split("=")[0])
+                mm = re.search(r"(\w+)\s*(?:\[[^\]]*\]\s*)*;?\s*$", head.strip())
+                if mm and mm.group(1) not in _CKW:
                     names = [mm.group(1)]
-                    kind = "static const"
+                    kind = "static const" if re.match(r"static\s+const\b", flat) else "static object"
+            elif re.match(r"(struct|union)\s+\w+\s*\{", flat):
+                # a file-local type definition: `struct hdr {...} __attribute__((packed));`
+                names = [re.match(r"(?:struct|union)\s+(\w+)", flat).group(1)]
+                kind = "type"
             elif re.match(r"typedef\b", flat) and "(" not in flat:
                 mm = re.search(r"(\w+)\s*(?:\[[^\]]*\]\s*)*;\s*$", flat)
                 if mm:
@@ -539,9 +557,9 @@ def file_local_context(src, path, cut_ranges, cut_texts, already, kinds=None):
                         break
                     lead += mm.end()
                     body = body[mm.end():]
-                flat = _strip_comments_strings(body)
+                flat = re.sub(r"__attribute__\s*\(\((?:[^()]|\([^()]*\))*\)\)", " ", _strip_comments_strings(body))
                 mm = re.match(r"static\b[^(){};]*?\b(\w+)\s*\(", flat)
-                if mm and mm.group(1) not in _CKW:
+                if mm and mm.group(1) not in _CKW and not mm.group(1).startswith("__"):
                     ents.append((stmt_start + lead, pos + 1, [mm.group(1)], src[stmt_start + lead:pos + 1], "static function"))
                 stmt_start = pos + 1
         k += 1
